@@ -100,6 +100,7 @@ func execC05(c EngCase, _ *kit.Env) kit.Outcome {
 			}
 
 			w.paused = true
+			w.startedPaused = 0
 
 			for k := 0; k < c.HoldSteps; k++ {
 				sched.Yield("controller:holding")
